@@ -157,12 +157,14 @@ impl World {
                         collation,
                         user,
                         tail,
+                        reserved,
                     } => enc::handshake_payload(&HsBody::V41 {
                         caps: caps | CLIENT_SSL,
                         maxps: *maxps,
                         collation: *collation,
                         user: user.clone(),
                         tail: tail.clone(),
+                        reserved: reserved.clone(),
                     }),
                     _ => hs,
                 };
@@ -293,10 +295,10 @@ impl World {
     }
 
     /// how many parameters the next on_execute is to pull (None = all)
-    pub fn peek_pull(&self) -> Option<u16> {
+    pub fn peek_pull(&self) -> (Option<u16>, u16) {
         match self.acts.get(self.act_next) {
-            Some(Act::Program(p)) => p.pull_params,
-            _ => None,
+            Some(Act::Program(p)) => (p.pull_params, p.pull_skip),
+            _ => (None, 0),
         }
     }
 
